@@ -510,6 +510,7 @@ func stubErrorsUnwrap(m *Machine, c *frame, fn *ssa.Function, a []Value) Value {
 type mutexData struct {
 	writer  bool
 	readers int
+	rOwners []*coro // the lines of execution holding a read lock (nil = main line)
 }
 
 func (m *Machine) mutexOf(v Value) (*Native, *mutexData) {
@@ -534,7 +535,20 @@ func (m *Machine) lock(v Value, write bool, what string) {
 	if write {
 		d.writer = true
 	} else {
+		// sync.RWMutex gives a pending writer priority over new readers: a read lock
+		// taken again by the goroutine that already holds one deadlocks as soon as
+		// another goroutine calls Lock in between ("this prohibits recursive read
+		// locking"). Other goroutines using the mutex are what vrf_interference declares.
+		if p, ok := v.(*Value); ok && len(m.interfere[p]) > 0 {
+			for _, o := range d.rOwners {
+				if o == m.curCoro {
+					m.recordViolation(m.cfg.Func+".no-deadlock", fmt.Sprintf("recursive RLock at %s: deadlocks with a writer that calls Lock between the two read locks", m.where()))
+					break
+				}
+			}
+		}
 		d.readers++
+		d.rOwners = append(d.rOwners, m.curCoro)
 	}
 	m.heldLocks = append(m.heldLocks, n)
 	// other goroutines may have run since we last held this mutex
@@ -571,6 +585,12 @@ func (m *Machine) unlock(v Value, write bool) {
 			m.goPanicf("fatal error: sync: RUnlock of unlocked RWMutex")
 		}
 		d.readers--
+		for i := len(d.rOwners) - 1; i >= 0; i-- {
+			if d.rOwners[i] == m.curCoro {
+				d.rOwners = append(d.rOwners[:i], d.rOwners[i+1:]...)
+				break
+			}
+		}
 	}
 	for i := len(m.heldLocks) - 1; i >= 0; i-- {
 		if m.heldLocks[i] == n {
